@@ -4,7 +4,7 @@
     computed from the UNFILTERED set of names in use -- whatever the listing
     configuration --, it was free, and the allocating side holds a committed
     claim on it when the answer is sent). *)
-From MW Require Import Base Store Monad Usage Server Websocket Service Inv Obs StoreFacts AllocFacts ProtoFacts NpFactsA NpFactsB AllocDraws.
+From MW Require Import Base Store Monad Usage Server Websocket Service Inv Obs StoreFacts AllocFacts ProtoFacts NpFactsA NpFactsB AllocDraws NameFacts.
 
 Theorem C04_allocator :
   forall claimed o n,
@@ -122,3 +122,30 @@ Example C04_nonvacuous :
   find_available ["1";"2";"3";"4";"5";"6";"7";"8";"x";"10";"01"]%string (mkAO (Some "9"%string) [])
   = AllocOk "9"%string.
 Proof. vm_compute. reflexivity. Qed.
+
+(** * history level (quoted by type from NameFacts.v) *)
+
+(** two allocates answered with the same nameplate of one app: it was retired strictly in between (crashed allocates included: a cut-short allocate never sends `allocated`) *)
+Theorem C04_alloc_pair_retired_between : ltac:(let t := type of alloc_pair_retired_between in exact t).
+Proof. exact alloc_pair_retired_between. Qed.
+Check C04_alloc_pair_retired_between.
+Print Assumptions C04_alloc_pair_retired_between.
+
+(** ... by the holder's release, the deletion of its mailbox, or expiry *)
+Theorem C04_alloc_pair_ender_between : ltac:(let t := type of alloc_pair_ender_between in exact t).
+Proof. exact alloc_pair_ender_between. Qed.
+Check C04_alloc_pair_ender_between.
+Print Assumptions C04_alloc_pair_ender_between.
+
+(** a live nameplate is never handed out *)
+Theorem C04_no_alloc_while_live : ltac:(let t := type of no_alloc_while_live in exact t).
+Proof. exact no_alloc_while_live. Qed.
+Check C04_no_alloc_while_live.
+Print Assumptions C04_no_alloc_while_live.
+
+(** non-vacuity *)
+Theorem C04_alloc_pair_applied : ltac:(let t := type of NameFactsExamples.alloc_pair_applied in exact t).
+Proof. exact NameFactsExamples.alloc_pair_applied. Qed.
+Check C04_alloc_pair_applied.
+Print Assumptions C04_alloc_pair_applied.
+
